@@ -137,8 +137,11 @@ CURATED_LIST = [b"", b"\n", b"0", b"0\n", b",", b",,\n", b"-", b"--", b"0-", b"-
                 b"4294967295\n", b"4294967296\n", b"4294967297\n", b"18446744073709551615\n", b"18446744073709551616\n",
                 b"99999999999999999999999999\n", b"-1\n", b"5,-1\n", b"3,4294967295\n", b"1-4294967295\n",
                 b"0-63\n", b"0-64\n", b"64\n", b"63,64\n", b"0-31,33-63,65\n"]
-# undefined behaviour in the C code (signed overflow): expected to trap under UBSan
-CURATED_LIST_UB = [b"2147483647\n", b"0,2147483647\n", b"-2147483648\n", b"2147483648\n", b"0-2147483647,5\n", b"6442450943\n"]
+# undefined behaviour in the C code (signed overflow): expected to trap under UBSan.  (text, model_affordable):
+# where the C code first clears a range of 2^31 bits the extracted model (strict OCaml, binary N) cannot follow;
+# for "2147483647\n" the model's verdict is the Coq lemma cpulist_overflow_witness.
+CURATED_LIST_UB = [(b"2147483647\n", False), (b"0,2147483647\n", False), (b"-2147483648\n", True), (b"2147483648\n", True),
+                   (b"0-2147483647,5\n", True), (b"6442450943\n", False), (b"3,2147483648,4\n", True)]
 CURATED_MASK = [b"", b"\n", b"0", b"0\n", b"1\n", b",", b",1\n", b"1,\n", b"0,0,0\n", b"0,0,1\n", b"00000000,00000000\n", b"1,0\n",
                 b"ffffffff\n", b"ffffffff,ffffffff\n", b"1,00000000,00000000\n", b"1ffffffff\n", b"1ffffffff,1\n", b"ffffffffffffffff\n",
                 b"ffffffffffffffff,1\n", b"1,ffffffffffffffff\n", b"10000000000000000\n", b"fffffffffffffffff,0\n", b"0x1\n", b"0x\n", b"0x,1\n", b"0X1f,0x2\n",
@@ -155,11 +158,63 @@ LIST_ALPHA = b"0123456789,,,---\n\n  x+a\x00"
 MASK_ALPHA = b"0123456789abcdefABCDEF,,,,\n\n  x+-g\x00"
 
 
-def safe_list_text(b):
-    """The cpulist parser turns a number >= 2^31 (mod 2^32) into a negative int
-    and then into a multi-hundred-megabyte bitmap: keep numeric tokens short in
-    the random streams (the boundary values are in the curated lists)."""
-    return not re.search(rb"[0-9a-fA-FxX]{6,}", b)
+def _strtoul0(s, i):
+    """glibc strtoul(s+i, &end, 0) on a bytes object ending with NUL: (value, end)."""
+    j = i
+    while s[j] in b" \t\n\v\f\r":
+        j += 1
+    neg = False
+    if s[j] in b"+-":
+        neg = s[j] == 0x2d
+        j += 1
+    base = 10
+    if s[j] == 0x30:
+        if s[j + 1] in b"xX" and chr(s[j + 2]) in "0123456789abcdefABCDEF":
+            base, j = 16, j + 2
+        else:
+            base = 8
+    digs = {8: "01234567", 10: "0123456789", 16: "0123456789abcdefABCDEF"}[base]
+    k = j
+    v = 0
+    while chr(s[k]) in digs and s[k] != 0:
+        v = v * base + int(chr(s[k]), 16)
+        k += 1
+    if k == j:
+        return 0, i
+    v = min(v, 2 ** 64 - 1)
+    if neg:
+        v = (2 ** 64 - v) % 2 ** 64
+    return v, k
+
+
+def safe_list_text(b, limit=1 << 20):
+    """Generator filter only (never an oracle): emulates hwloc__read_path_as_cpulist far enough to tell whether
+    it would clear a range starting or ending beyond `limit` - a number >= 2^31 (mod 2^32) becomes a negative
+    int and then a multi-hundred-megabyte bitmap, which neither the sanitized build nor the model driver can
+    afford.  The boundary values themselves are in the curated lists."""
+    s = bytearray(b.split(b"\0")[0] + b"\0\0\0")
+
+    def to_int(v):
+        m = v % 2 ** 32
+        return m if m < 2 ** 31 else m - 2 ** 32
+    cur, prevlast = 0, -1
+    while True:
+        comma = s.find(b",", cur)
+        end = s.index(0, cur)
+        if comma < 0 or comma > end:
+            comma = -1
+        else:
+            s[comma] = 0
+        v, tmp = _strtoul0(s, cur)
+        nf = to_int(v)
+        nl = to_int(_strtoul0(s, tmp + 1)[0]) if s[tmp] == 0x2d else nf
+        for x in (prevlast, nf, nl):
+            if not (-1 <= x < limit):
+                return False
+        prevlast = nl
+        if comma < 0:
+            return True
+        cur = comma + 1
 
 
 def mutate(rng, b, alphabet):
